@@ -20,8 +20,10 @@ LEVEL_TEXT = ("Lean 4 theorems, for every sorted sequence and both modes (nparti
               "transliteration of sorted_division_locations: locations strictly increase from 0 to len "
               "(sdl_locations_strict), every division is the value at its location and the last is the last value "
               "(sdl_division_is_value_at_location, sdl_last), no boundary splits equal values (sdl_no_straddle, "
-              "sdl_boundary_first_occurrence), whenever the function returns (proved by a loop invariant, no size bound). "
-              "'npartitions met exactly when enough distinct values', termination/no-IndexError and the quantile "
+              "sdl_boundary_first_occurrence), whenever the function returns (proved by a loop invariant, no size bound); "
+              "sdl_exact_when_enough_unique_partial: for duplicate-free sequences and 1 <= n <= len the function returns "
+              "(no IndexError, fuel suffices) exactly n partitions at the ideal locations. 'npartitions met exactly' WITH "
+              "duplicates (enforce_exact branch), termination in general and the quantile "
               "divisions (process_val_weights / RepartitionQuantiles: non-decreasing, span min..max) are VALIDATED only: "
               "exhaustive over all sorted sequences of length <= 6 over 3 letters (thorough: <= 9 over 4) x all "
               "npartitions/chunksize plus random longer ones, and random quantile inputs.")
